@@ -25,7 +25,7 @@ from harness import wsh
 from harness.core import Ctx, LEAN, REPO
 
 ID = "C03"
-LEAN_MODULES = ["GeoVerif.Props.C03"]
+LEAN_MODULES = ["GeoVerif.Props.C03", "GeoVerif.Props.C03Attr"]
 THEOREMS = [
     "GeoVerif.Setters.exec_synced",
     "GeoVerif.Setters.writeThrough_sound",
@@ -33,6 +33,11 @@ THEOREMS = [
     "GeoVerif.Setters.all_setters_write_through",
     "GeoVerif.Setters.dispatch_total",
     "GeoVerif.Setters.update_before_store_rejected",
+    "GeoVerif.AttrW.writeFixed_exact",
+    "GeoVerif.AttrW.writeFixed_frame",
+    "GeoVerif.AttrW.writeFixed_idem",
+    "GeoVerif.AttrW.writeFound_exact_some",
+    "GeoVerif.AttrW.writeFound_stale_counterexample",
 ]
 RULE = (
     "every (class, attribute) pair where the class is a concrete object/group/data/type class or Workspace and the attribute has a "
@@ -52,7 +57,11 @@ LEVEL_TEXT = (
     "value; order_independent for several fields), and, by `decide +kernel` over the table regenerated from /repo's source on "
     "every run, every in-scope setter of every class writes through on every non-raising path (all_setters_write_through) and "
     "every array field is named in a dispatch list (dispatch_total). The configuration quantifier is the complete reflective "
-    "table, so this is a proof, not a sample. Tied to the running code by assigning every pair on a stored entity and re-reading."
+    "table, so this is a proof, not a sample. Tied to the running code by assigning every pair on a stored entity and re-reading. "
+    "What an update of the scalar attributes does to the node is model M3b (Model/AttrW.lean): walking an attribute map leaves "
+    "exactly the in-memory valuation on the node, None included, whatever the node held before (writeFixed_exact, _frame, _idem); "
+    "the writer as found kept the former value of an attribute set back to None (writeFound_stale_counterexample, repaired in "
+    "/repo) - the running writer is compared with the model on random valuations and the variant is probed on every run."
 )
 LEVEL_NOTE = "Trusted: Lean kernel, the AST abstraction (validated by the dynamic sweep: a setter judged write-through must re-read equal), h5py attribute/dataset creation."
 TECHNIQUE = "translator (AST -> event paths) + Lean `decide +kernel` over the regenerated setter table + soundness proof + reflective assign/close/re-read correspondence"
@@ -133,6 +142,15 @@ def new_value(name, cur, k):
     if isinstance(cur, list) and cur and all(isinstance(x, str) for x in cur):
         return [x + "y" for x in cur]
     return None
+
+
+def none_in_domain(obj, attr):
+    """None is a valid value of the attribute as far as its setter declares (`x: str | None`, `Optional[...]`); a setter that
+    merely fails to refuse None (the boolean flags) does not make None a valid value"""
+    prop = getattr(type(obj), attr, None)
+    ann = getattr(getattr(prop, "fset", None), "__annotations__", {}) or {}
+    texts = [str(v) for k, v in ann.items() if k != "return"]
+    return any("None" in t or "Optional" in t for t in texts)
 
 
 def same(a, b):
@@ -236,6 +254,20 @@ def assign_and_read(ctx, ent, target, attr, k, case, skipped):
     """assign one value; returns (value, live value after the assignment, whether it changed) or None when nothing was assigned"""
     obj = ent if target == "entity" else ent.entity_type
     cur = getattr(obj, attr)
+    if k == "clear":
+        # an optional attribute that holds a value is set back to None: where the setter accepts that, a fresh reader must
+        # see None too (the stale value must not stay in the file)
+        if cur is None or not none_in_domain(obj, attr):
+            return None
+        try:
+            setattr(obj, attr, None)
+        except Exception:  # noqa: BLE001   None is not in the attribute's domain
+            return None
+        live = getattr(obj, attr)
+        if live is not None:
+            return None                     # the setter maps None to a default: covered by the other values
+        ctx.count("cleared_to_none")
+        return None, live, True
     val = new_value(attr, cur, k)
     if val is None:
         if k != "near":
@@ -267,18 +299,20 @@ def sweep(ctx: Ctx):
                 ent = entity_factories(ws)[label]()
                 obj = ent if target == "entity" else ent.entity_type
                 attrs = assignable(obj)
-            for attr, k in itertools.product(attrs, list(range(nvals)) + ["near"]):
+            for attr, k in itertools.product(attrs, list(range(nvals)) + ["near", "clear"]):
                 case = {"cls": label if target == "entity" else label + ".entity_type", "attr": attr, "k": k}
                 os.remove(path)
                 # the assignment is made in the session that created the entity (even k) or alone in a later session (odd k,
                 # "near"): in the latter nothing else the session does can carry the change into the file
-                later = k == "near" or k % 2 == 1
+                later = k in ("near", "clear") or k % 2 == 1
                 case["session"] = "later" if later else "creating"
                 try:
                     with Workspace.create(path) as ws:
                         ent = entity_factories(ws)[label]()
                         uid = ent.uid
                         outcome = None if later else assign_and_read(ctx, ent, target, attr, k, case, skipped)
+                        if k == "clear":    # give the optional attribute a value first, stored by the creating session
+                            assign_and_read(ctx, ent, target, attr, 0, case, set())
                         del ent
                     if later:
                         with Workspace(str(path), mode="r+") as ws:
@@ -304,6 +338,8 @@ def sweep(ctx: Ctx):
                         live, back = np.asarray(live, dtype="float32"), np.asarray(back, dtype="float32")
                     if not same(back, live):
                         sig = f"C03:lost:{attr}:{'type' if target == 'type' else attr_owner(obj2)}"
+                        if k == "clear":    # a signature of its own: a listed finding about None must not hide a lost value
+                            sig = f"C03:none-not-stored:{attr}:{'type' if target == 'type' else attr_owner(obj2)}"
                         if concat and target == "type" and case["cls"].startswith("Drillhole"):
                             sig = "C03:lost:type-of-concatenated-object"
                         elif concat and attr == "metadata":
@@ -381,6 +417,106 @@ def orders(ctx: Ctx):
         os.remove(path)
 
 
+WRITER_FIELDS = {
+    # attribute-map key -> (private field, values): scalar attributes whose in-memory value may be None
+    "type": {"Description": ("_description", ["first", "second text"]), "Name": ("_name", ["tname", "other"]),
+             "Units": ("_units", ["m", "ppm"]), "Number of bins": ("_number_of_bins", [10, 64]),
+             "Mapping": ("_mapping", ["linear", "log"])},
+    "hole": {"Cost": ("_cost", [1.5, 20.0]), "End of hole": ("_end_of_hole", [100.0, 7]),
+             "Planning": ("_planning", ["Ongoing", "Planned"]), "Last focus": ("_last_focus", ["None", "2020"])},
+}
+
+
+def _atok(x):
+    if x is None:
+        return None
+    if isinstance(x, bytes):
+        return x.decode()
+    if isinstance(x, (bool, np.bool_)):
+        return str(int(x))
+    if isinstance(x, (int, np.integer)):
+        return str(int(x))
+    if isinstance(x, (float, np.floating)):
+        return repr(float(x))
+    return str(x)
+
+
+def attr_writer(ctx: Ctx):
+    """Correspondence of model M3b (Model/AttrW.lean) with `H5Writer.write_attributes`: arbitrary valuations of the scalar
+    attributes of a data type and of a drillhole (None included, set on the private fields so that no setter interferes) are
+    written over whatever the node holds; the node's attributes read with h5py must be the model's store."""
+    from geoh5py.io.h5_writer import H5Writer
+    from geoh5py.objects import Drillhole, Points
+    from geoh5py.workspace import Workspace
+    path = ctx.scratch / "c03_writer.geoh5"
+    rng = ctx.rng
+    n_cases = ctx.n(24, 120)
+    lines, expects, cases = [], [], []
+
+    def raw(ws, obj, keys):
+        h = H5Writer.fetch_handle(ws.geoh5, obj)
+        return {k: (_atok(h.attrs[k]) if k in h.attrs else None) for k in keys}
+
+    def one_round(ws, obj, fields, valuation):
+        keys = list(fields)
+        before = raw(ws, obj, keys)
+        for k, v in valuation.items():
+            setattr(obj, fields[k][0], v)
+        ws.update_attribute(obj, "attributes")
+        after = raw(ws, obj, keys)
+        mem = [[k, _atok(getattr(obj, fields[k][0]))] for k in keys]
+        return before, mem, after
+
+    # which writer is this?  the model's own discriminating input (writeFound_stale_counterexample): Units "m", then None
+    if path.exists():
+        os.remove(path)
+    with Workspace.create(path) as ws:
+        dt = Points.create(ws, vertices=np.zeros((2, 3))).add_data({"d": {"values": np.zeros(2)}}).entity_type
+        one_round(ws, dt, WRITER_FIELDS["type"], {"Units": "m"})
+        _, _, after = one_round(ws, dt, WRITER_FIELDS["type"], {"Units": None})
+    fixed = after["Units"] is None
+    ctx.extra["attribute_writer_variant"] = "repaired (None removes the attribute)" if fixed else "asFound (None keeps the former value)"
+    for i in range(n_cases):
+        which = "type" if i % 2 == 0 else "hole"
+        fields = WRITER_FIELDS[which]
+        if path.exists():
+            os.remove(path)
+        with Workspace.create(path) as ws:
+            if which == "type":
+                obj = Points.create(ws, vertices=np.zeros((2, 3))).add_data({"d": {"values": np.zeros(2)}}).entity_type
+            else:
+                obj = Drillhole.create(ws, collar=[0.0, 0, 0])
+            for r in range(rng.randint(2, 4)):
+                valuation = {k: (None if rng.random() < 0.4 else rng.choice(vals)) for k, (_, vals) in fields.items()
+                             if rng.random() < 0.8}
+                case = {"writer": which, "case": i, "round": r, "valuation": {k: _atok(v) for k, v in valuation.items()}}
+                try:
+                    before, mem, after = one_round(ws, obj, fields, valuation)
+                except Exception as e:  # noqa: BLE001
+                    ctx.fail(case, f"write_attributes raised {type(e).__name__}: {str(e)[:100]} for {case['valuation']}",
+                             f"C03:writer-raises:{type(e).__name__}")
+                    break
+                keys = list(fields)
+                lines.append({"m": "attrw", "fixed": fixed, "keys": keys,
+                              "store": [[k, v] for k, v in before.items() if v is not None], "mem": mem})
+                expects.append([after[k] for k in keys])
+                cases.append(dict(case, before=before))
+                ctx.case(case, nontrivial=any(v is None for v in valuation.values()), sample_cap=4)
+                ctx.count("writer_rounds")
+                ctx.count("writer_none_values", sum(v is None for v in valuation.values()))
+                stale = [k for k, m in mem if m is None and after[k] is not None]
+                if stale:
+                    ctx.fail(case, f"attributes {stale} are None in memory after the write but the node still holds "
+                                   f"{ {k: after[k] for k in stale} }", "C03:none-not-stored:writer")
+    if path.exists():
+        os.remove(path)
+    outs = ctx.driver.run(lines)
+    for case, exp, out in zip(cases, expects, outs):
+        ctx.traces += 1
+        if out != exp:
+            ctx.disagree(case, "node attributes after write_attributes", model=out, impl=exp)
+
+
 def run(ctx: Ctx):
     import warnings
     warnings.filterwarnings("ignore")
@@ -388,6 +524,7 @@ def run(ctx: Ctx):
     sweep(ctx)
     orders(ctx)
     ctx.traces = ctx.hist.get("pairs_checked", 0) + ctx.hist.get("orders_checked", 0)
+    attr_writer(ctx)
 
 
 def replay(ctx: Ctx, payload):
